@@ -99,7 +99,7 @@ def classify(h, res):
     return "undecided", "banner: " + banner, []
 
 
-def run_property(prop, tree, harnesses, jobs, timeout_s, mem_gb=52, extra_args=()):
+def run_property(prop, tree, harnesses, jobs, timeout_s, mem_gb=52, extra_args=(), solver=None):
     """Compile + verify `harnesses` (same crate) -> {harness name: parsed result or None}, build log."""
     crate = harnesses[0].crate
     outdir = os.path.join(KANI_TARGET, "result_output_dir")
@@ -113,7 +113,9 @@ def run_property(prop, tree, harnesses, jobs, timeout_s, mem_gb=52, extra_args=(
         cmd += ["--harness", h]
     cmd += ["-j", str(jobs), "--output-format", "terse", "--output-into-files",
             "--harness-timeout", f"{int(timeout_s)}s"]
-    cmd += list(extra_args)
+    if solver:
+        cmd += ["--solver", solver]
+    cmd += list(extra_args)   # may end with `--cbmc-args ...`, which has to be last
     # whole invocation: build (cold: minutes) + ceil(n/jobs) rounds of timeout
     rounds = (len(names) + jobs - 1) // jobs
     overall = 1500 + rounds * (timeout_s + 30)
